@@ -444,6 +444,7 @@ type Clause struct {
 	Expr *SExpr
 	Line int
 	Name string // optional label: "ensures[name] expr"
+	Views []string // optional: views (property ids) this clause belongs to; empty = all
 }
 
 type LoopSpec struct {
@@ -563,6 +564,15 @@ func ReadSpecFile(path, pkg string) (*SpecFile, error) {
 		if k := strings.Index(r.kw, "["); k >= 0 {
 			c.Name = strings.TrimSuffix(r.kw[k+1:], "]")
 			c.Kw = r.kw[:k]
+			// "label|P1,P2": the clause belongs only to the views (properties) P1, P2
+			if b := strings.Index(c.Name, "|"); b >= 0 {
+				for _, v := range strings.Split(c.Name[b+1:], ",") {
+					if v = strings.TrimSpace(v); v != "" {
+						c.Views = append(c.Views, v)
+					}
+				}
+				c.Name = c.Name[:b]
+			}
 		}
 		e, err := ParseSpecExpr(r.text)
 		if err != nil {
@@ -835,4 +845,17 @@ func parseLemmaHeader(text string) (*Lemma, error) {
 		l.Body = e
 	}
 	return l, nil
+}
+
+// inView reports whether a clause participates in the given view (property id). Empty view = everything.
+func (c *Clause) inView(view string) bool {
+	if view == "" || len(c.Views) == 0 {
+		return true
+	}
+	for _, v := range c.Views {
+		if v == view {
+			return true
+		}
+	}
+	return false
 }
